@@ -203,7 +203,13 @@ def run_case(case):
                       "envs": envs, "cell_env": ce[:12], "densities_SI": [s["density"] for s in desc["species"]][:3],
                       "chstt": [s["chstt"] for s in desc["species"]][:3]}
     try:
-        system = gen.render_system(desc, rd)
+        if r.random() < 0.35:
+            # the same description as a dictionary (units declared or inherited at every level under any of the key aliases,
+            # run-time strings): node, edge, species and space levels each in their own units
+            system = st.rdsystem_from_dict(gen.system_dict(desc, rd))
+            cnt("systems_from_dictionaries")
+        else:
+            system = gen.render_system(desc, rd)
     except Exception as e:
         stg.add("valid system rejected", error=err(e))
         info["bad"] = stg.bad
